@@ -58,6 +58,10 @@ def gen_cases(ctx, n, faults=False):
         if r.random() < 0.1:
             c["check_turning"] = False
             c["maxdepth"] = min(c["maxdepth"], 5)
+        if r.random() < 0.2:
+            # target_integration_time: max_steps = ceil(t / step) both below and far above 2^maxdepth
+            c["target_integration_time"] = r.choice([0.1, 0.5, 1.0, 2.0, 3.0, 5.0, 10.0, 40.0])
+            c["maxdepth"] = min(c["maxdepth"], 5)
         if r.random() < 0.3 and dim >= 2:
             # low-rank factor from a signed permutation (orthonormal columns, exact)
             rank = r.randint(0, dim)
@@ -132,6 +136,12 @@ def build_model_call(c, d, missing_fatal):
     o = ("{| n_maxdepth := %d; n_mindepth := %d; n_extra := %d; n_check := %s; n_dim0 := %s |}"
          % (c.get("maxdepth", 4), c.get("mindepth", 0), c.get("extra_doublings", 0),
             coq_bool(c.get("check_turning", True)), coq_bool(c["dim"] == 0)))
+    if c.get("target_integration_time") is not None:
+        # max_steps as nuts::draw computes it (binary64 division, ceil); the depth bounds derived
+        # from it are the model's (eff_opts)
+        o = "(eff_opts %s (Some %d%%N))" % (o, max_steps_of(c))
+    else:
+        o = "(eff_opts %s None)" % o
     words = [w for kind, w in d["rng_calls"] if kind in ("u32", "u64")]
     # the model may want more words than the implementation used if they disagree
     words = words + ["0"] * 4
@@ -192,6 +202,10 @@ def ambiguous(m):
     return False
 
 
+def max_steps_of(c):
+    return int(math.ceil(c["target_integration_time"] / c["step_size"]))
+
+
 def oracle_c03(c, o):
     """Implementation-side audit of the statement of C03 on one case."""
     bad = []
@@ -220,6 +234,11 @@ def oracle_c03(c, o):
                 bad.append("draw %d: %d steps for depth %d" % (k, steps, depth))
             if c["dim"] > 0 and maxdepth >= 1 and steps < 1:
                 bad.append("draw %d: no integration step although maxdepth >= 1" % k)
+            # the tree the draw is selected from consists of the start and the first 2^depth - 1
+            # leapfrog ends; everything integrated later belongs to the doubling that was rejected
+            accepted = {0} | {lf["idx"] for lf in d["leapfrogs"][:2 ** depth - 1]}
+            if idx not in accepted:
+                bad.append("draw %d: returned index %d is not a state of the accepted tree of depth %d (it lies in the sub-trajectory that was rejected)" % (k, idx, depth))
         if abs(idx) > 2 ** depth - 1:
             bad.append("draw %d: |index| %d > 2^depth-1 (depth %d)" % (k, abs(idx), depth))
         moved = st_["x"] != init["x"]
@@ -241,8 +260,14 @@ def oracle_c03(c, o):
         # the draw lies within the accepted tree: |tree| = 2^depth contiguous indices around 0
         lo = min([0] + [lf["idx"] for lf in good])
         hi = max([0] + [lf["idx"] for lf in good])
-        if r["reached_maxdepth"] and (depth != maxdepth or r["diverging"]):
-            bad.append("draw %d: maxdepth flag with depth %d (maxdepth %d) diverging=%s" % (k, depth, maxdepth, r["diverging"]))
+        # the depth limit in force: with target_integration_time it is the derived bound (<= maxdepth)
+        limit = maxdepth
+        if c.get("target_integration_time") is not None:
+            n = max_steps_of(c)
+            fl, ce = n.bit_length() - 1, (n - 1).bit_length()
+            limit = min(max(ce, max(fl, c.get("mindepth", 0)), 1), maxdepth)
+        if r["reached_maxdepth"] and (depth != limit or r["diverging"]):
+            bad.append("draw %d: maxdepth flag with depth %d (depth limit %d) diverging=%s" % (k, depth, limit, r["diverging"]))
         if (not r["reached_maxdepth"]) and depth == maxdepth and not r["diverging"] and extra == 0 and c.get("check_turning", True) and c["dim"] > 0:
             # stopped at maxdepth without the flag: a U-turn of the whole tree at the last level
             pass
